@@ -583,7 +583,7 @@ def oracle(case_obs: dict) -> list[str]:
             if case["existing"] in ("different", "coredifferent", "partial", "otherspec", "empty") \
                     and o["outcome"] not in ("diff", "invalid"):
                 fails.append("existing output differs from what would be generated but generation did not raise")
-            if case["existing"] == "equal" and case["core"] is None and not case["post"] and o["outcome"] != "ok":
+            if case["existing"] == "equal" and not case["post"] and o["outcome"] != "ok":
                 fails.append("existing output matches what would be generated but generation raised")
         if o.get("io_stage") is not None and o["outcome"] == "ok":
             fails.append("an I/O failure part-way through a non-force generation was swallowed: the call reported success")
